@@ -147,6 +147,15 @@ def extreme_values(name):
     return [-(2 ** (b - 1)), -1, 2 ** (b - 1) - 1]
 
 
+def precision_boundary_values(name):
+    """64-bit integers that float64 cannot represent (first ones beyond 2**53); None for other dtypes"""
+    if is_float(name) or int_bits(name) != 64:
+        return None
+    if is_unsigned(name):
+        return [0, 2 ** 53 + 1, 2 ** 53 + 3]
+    return [-(2 ** 53 + 1), 0, 2 ** 53 + 1]
+
+
 def can_hold_missing(name, klass):
     if klass in ("text", "cat"):
         return True
@@ -168,7 +177,8 @@ def distinct_orders(rows):
     return out
 
 
-FORMULAS = ["X", "X + a", "X:a", "X:A", "C(X)"]
+# '0 + X + a': no intercept, so the first column of the matrix is X's (integer / indicator typed), followed by a float
+FORMULAS = ["X", "X + a", "X:a", "X:A", "C(X)", "0 + X + a"]
 A_VALUES = [0.5, -2.0, 4.0, 3.0, 1.5]
 B_VALUES = ["q", "p", "q", "p", "p"]  # text companion column 'A' (object dtype / arrow string); levels p < q
 
@@ -194,7 +204,9 @@ def reference(formula, klass, xlevels, rows, efr):
         fx = R.Factor(name, "X", "num")
     fa = R.Factor("a", "a", "num")
     fA = R.Factor("A", "A", "cat", R.sorted_levels(r["A"] for r in rows))
-    if formula in ("X", "C(X)"):
+    if formula == "0 + X + a":
+        cols = R.design("f1+f2", fx, fa, full_rank=efr, intercept=False)
+    elif formula in ("X", "C(X)"):
         cols = R.design("f1", fx, full_rank=efr)
     elif formula == "X + a":
         cols = R.design("f1+f2", fx, fa, full_rank=efr)
@@ -213,6 +225,15 @@ DUNDER_SIG = "level-starting-with-double-underscore-dropped"
 
 def names_dunder_level(column_name):
     return "[__" in column_name or "[T.__" in column_name
+
+
+def as_number(v):
+    """a matrix cell as an exact Python number: integers (any integer dtype, bool) stay ints, the rest is float"""
+    if isinstance(v, (bool, np.bool_)):
+        return int(v)
+    if isinstance(v, numbers.Integral):
+        return int(v)
+    return float(v)
 
 
 def cell_is_number(v):
@@ -235,7 +256,7 @@ def extract(m, out):
                     status = "object-numeric"
                 else:
                     return "non-numeric", names, None, {"column": str(c), "dtype": str(obj[c].dtype), "cells": [repr(v) for v in cells[:4]]}
-        mat = [[float(v) for v in row] for row in obj.to_numpy(dtype=object).tolist()]
+        mat = [[as_number(v) for v in row] for row in obj.to_numpy(dtype=object).tolist()]
         return status, names, mat, {"dtypes": [str(d) for d in obj.dtypes]}
     if isinstance(obj, pa.Table):
         if list(obj.column_names) != names:
@@ -244,7 +265,7 @@ def extract(m, out):
             if not (pa.types.is_integer(f.type) or pa.types.is_floating(f.type) or pa.types.is_boolean(f.type)):
                 return "non-numeric", names, None, {"column": f.name, "dtype": str(f.type)}
         cols = [obj.column(i).to_pylist() for i in range(obj.num_columns)]
-        mat = [[float(cols[j][i]) for j in range(len(cols))] for i in range(obj.num_rows)]
+        mat = [[as_number(cols[j][i]) for j in range(len(cols))] for i in range(obj.num_rows)]
         return status, names, mat, {"dtypes": [str(f.type) for f in obj.schema]}
     if sp.issparse(obj):
         arr = obj.toarray()
@@ -259,11 +280,18 @@ def extract(m, out):
             return "non-numeric", names, None, {"dtype": str(arr.dtype), "cells": bad}
     if arr.ndim != 2:
         return "non-numeric", names, None, {"dtype": str(arr.dtype), "shape": list(arr.shape)}
-    mat = [[float(v) for v in row] for row in arr.tolist()]
+    mat = [[as_number(v) for v in row] for row in arr.tolist()]
     return status, names, mat, {"dtype": str(arr.dtype)}
 
 
-def close(a, b):
+def close(a, b, exact=False):
+    """two ints must be equal; `exact`: a wanted int must be met exactly whatever the type of the result (Python
+    compares int and float exactly, so float(2**53) != 2**53 + 1); otherwise relative tolerance 1e-9"""
+    if isinstance(a, int) and isinstance(b, int):
+        return a == b
+    if exact and isinstance(b, int):
+        return a == b
+    a, b = float(a), float(b)
     return abs(a - b) <= 1e-9 * max(1.0, abs(a), abs(b))
 
 
@@ -356,7 +384,11 @@ def drv_dtypes(c, ctx, col):
     if any(len(r) != len(w) for r, w in zip(got, want)):
         violation(key, detail, sig="wrong-column-count")
         return
-    if not all(close(g, w) for r, wr in zip(got, want) for g, w in zip(r, wr)):
+    # Outputs that keep one dtype per column (pandas, narwhals) must hand an integer column through EXACTLY (the
+    # pass-through column is the one named X); a numpy / sparse matrix has a single dtype, so integers beyond 2**53
+    # legitimately round there when another column is float (tolerance), as do products with float columns.
+    exact_cols = [out in ("pandas", "narwhals") and klass == "num" and nm == "X" for nm in names]
+    if not all(close(g, w, exact=ex) for r, wr in zip(got, want) for g, w, ex in zip(r, wr, exact_cols)):
         violation(key, detail, sig="wrong-values")
         return
     col.count("agree:" + klass + (":missing-cell-dropped" if len(present) < len(vals) else ""))
@@ -481,12 +513,15 @@ def make_ctx(thorough, levels_list, only=None, missing=False):
                 if not missing:
                     mss = mss + [extreme_values(k)]  # both tiers: the ends of the dtype's range
                     extremes_at = len(mss) - 1
+                    if precision_boundary_values(k):
+                        mss = mss + [precision_boundary_values(k)]
             if not missing:
                 if k != "object(NaN)":  # identical to "object" when nothing is missing
                     rows_by_dtype[k] = [distinct_orders(ms) for ms in mss]
                     if klass == "num" and not thorough:  # quick: the extreme values in two orders only
-                        ev = mss[extremes_at]
-                        rows_by_dtype[k][extremes_at] = [ev, [ev[2], ev[0], ev[1]]]
+                        for at in range(extremes_at, len(mss)):
+                            ev = mss[at]
+                            rows_by_dtype[k][at] = [ev, [ev[2], ev[0], ev[1]]]
             elif can_hold_missing(k, klass):
                 if thorough:
                     pools = [distinct_orders(ms + [None]) for ms in mss if len(ms) <= 3]
